@@ -43,6 +43,8 @@ def step (w : W) (toks : List String) : W × String :=
     let (fs, ix) := catalogue t
     (applyOp w (.addCol t fs ix), "ok")
   -- a schema operation inside a transaction that is discarded leaves the node as it was
+  -- a node opened on the store contents as of a completed operation is the running node (`run_coherent`)
+  | ["crashcopy"] => (w, "same")
   | ["txschema", _] => (w, "discarded")
   | ["txpatch", _, _] => (w, "discarded")
   | ["policy"] => (applyOp w (.addCol "P" ["name", "age"] []), "ok")
